@@ -48,7 +48,17 @@ RULE = ("(a) per-case sweep: every ensemble of 1..3 slots over the grid {0,1/2,1
         "(f) Dataset inputs: 2-3 variables over shared coordinates whose NaN positions differ by construction (missing observation / all-NaN "
         "ensemble / single valid member / scattered NaN members / complete, a different class per variable; dims stored in a different order per "
         "variable; sometimes one shared DataArray observation), through crps_for_ensemble, tail / interval / generic chaining and "
-        "brier_score_for_ensemble with every option: each variable of the result = the same call on that variable alone, parts add up per variable. "
+        "brier_score_for_ensemble with every option: each variable of the result = the same call on that variable alone, parts add up per variable; "
+        "(g) magnitudes: the dyadic ensembles of (a) and (c) multiplied by 2^k, k = -60 and 40 always and two of -59..39 (exact in binary64), and "
+        "shifted by an ordinary-magnitude offset c (k = -45..-30: a nearly perfect forecast): crps_for_ensemble (four components, both methods), "
+        "lower tail / interval / upper tail and the threshold integral of brier_score_for_ensemble against the exact rational oracle of the scaled "
+        "values with a tolerance of 1e-9 relative to max(|value|, 2^k) (no absolute floor), zero iff every member equals the observation, parts add "
+        "up, and score(2^k x + c, 2^k y + c) = 2^k score(x, y) (Brier cells unchanged); "
+        "(h) optional arguments: for each of the five public functions every optional argument (method, include_components, weights with a NaN and "
+        "a zero weight, reduce_dims / preserve_dims in every spelling, tail, chaining_func_kwargs None / {} / override, fair_correction, the four "
+        "event_threshold_operators on thresholds on and between members, threshold_dim, a scalar int / float threshold) omitted and explicit, at the "
+        "documented default and at other values, alone and next to the others written out: result dimensions and values = exact oracle for the "
+        "effective arguments; every call whose effective arguments are the documented defaults is bitwise equal to the fully explicit one. "
         "A case is distinct by the hash of its full description and non-trivial when the "
         "implementation returns at least one finite value.")
 ASSUMPTIONS = ["the Coq statements are for finite rational members, observations and thresholds (or NaN = missing); +-inf members / observations / "
@@ -58,7 +68,10 @@ ASSUMPTIONS = ["the Coq statements are for finite rational members, observations
                "Dataset inputs are not modelled in Coq: that each variable is scored as it is alone as a DataArray is a tested predicate",
                "the Coq statement about brier_score_for_ensemble is for operator.ge (at interval midpoints >= and > coincide); the other operators "
                "and thresholds on a member are compared with an exact rational oracle only",
-               "storage dtypes are not modelled in Coq (the model computes with rationals): independence of the storage dtype is a tested predicate"]
+               "storage dtypes are not modelled in Coq (the model computes with rationals): independence of the storage dtype is a tested predicate",
+               "magnitudes 2^-60 .. 2^40 (and differences of 2^-46 at order 1) are tested against exact oracles; binary64 underflow / overflow "
+               "(subnormal data, values beyond 1e300) is outside the tested range",
+               "documented defaults of the optional arguments are the table doc_defaults() in the check module (read off the signatures and docstrings)"]
 TRUSTED = ["tools/sites/c06.py: custom translator sites; they check the statement skeleton of crps_for_ensemble / tw_* / brier_score_for_ensemble and "
            "translate only the elementwise expressions; the NaN-skipping sum/mean/count semantics they assume are validated by the correspondence check"]
 
@@ -69,7 +82,10 @@ EXPECT_COUNTS = ["sweep", "random-case", "tw-case", "tw-sweep", "invariance", "b
                  "dataset:plain", "dataset:tail", "dataset:interval", "dataset:chain", "dataset:brier", "dataset:components", "dataset:parts-add-up",
                  "dataset:nan-class=missing-obs", "dataset:nan-class=all-nan-ensemble", "dataset:nan-class=single-member",
                  "full:plain", "full:tail", "full:interval", "full:chain", "full:chain-kwargs", "full:components", "full:weights", "full:infinite-values",
-                 "full:err:ValueError", "additivity:full", "reduction", "guards", "corpus"]
+                 "full:err:ValueError", "additivity:full", "reduction", "guards", "corpus",
+                 "magnitude", "magnitude:2^-60", "magnitude:2^40", "magnitude:2^k", "magnitude-offset", "magnitude:offset",
+                 "defaults", "defaults:crps_for_ensemble", "defaults:tw_crps_for_ensemble", "defaults:tail_tw_crps_for_ensemble",
+                 "defaults:interval_tw_crps_for_ensemble", "defaults:brier_score_for_ensemble"]
 
 GRID = [Fraction(k, 2) for k in range(-6, 7)]
 SMALL = [Fraction(0), Fraction(1, 2), Fraction(1), Fraction(2)]
@@ -1663,9 +1679,14 @@ def replay(ctx, obj):
                                     ens=case["ensemble_member_dim"], mode=mode, method=case["method"], rd=case.get("reduce_dims"), pd=case.get("preserve_dims"),
                                     w=gens.da_from_repr(w) if isinstance(w, dict) else None, comps=bool(case.get("include_components")),
                                     classes=case.get("nan_classes")))
+        elif fn.endswith("[defaults]"):
+            defaults_level(ctx, [(unj(c["members"]), unj(c["obs"])) for c in case["cases"]], "replay")
         elif "members" in case:
             xs, y = unj(case["members"]), unj(case["obs"])
-            if fn.startswith("brier_score_for_ensemble") and fn.endswith("[inf]"):
+            if fn.endswith("[magnitude]"):
+                fx = (unj(case["lower_threshold"]), unj(case["upper_threshold"]), case.get("thresholds", "scalar")) if "lower_threshold" in case else None
+                magnitude_level(ctx, [(xs, y)], "replay", ks=[int(case["scale"].split("^")[1])], offset=unj(case.get("offset", 0)), fixed=fx)
+            elif fn.startswith("brier_score_for_ensemble") and fn.endswith("[inf]"):
                 fx = {"ts": [unj(case["threshold"])]} if "threshold" in case else {}
                 if "lower_threshold" in case:
                     fx["ab"] = (unj(case["lower_threshold"]), unj(case["upper_threshold"]))
@@ -1701,6 +1722,386 @@ def replay(ctx, obj):
             check_full(ctx, c)
         else:
             corpus(ctx)
+
+
+# ---------------------------------------------------------------------------------------------------
+# magnitudes: the score has the unit of the data -- nothing in it is an absolute quantity.  The dyadic ensembles of the other
+# streams multiplied by a power of two 2^k, k = -60 .. 40 (exact in binary64, so the rational oracles apply to the scaled values),
+# optionally shifted by an ordinary-magnitude offset (a nearly perfect forecast: values of order 1 that differ by 2^-45 .. 2^-30);
+# every comparison is relative to the unit 2^k of the data (no absolute floor)
+# ---------------------------------------------------------------------------------------------------
+MAG_RTOL = Fraction(1, 10 ** 9)
+
+
+def mag_ok(x, q, unit, rtol=MAG_RTOL):
+    """implementation float x vs exact rational q, for data that are multiples of unit / 2: |x - q| <= rtol * max(|q|, unit)
+    (the rounding error of the kernel form is proportional to its terms, which are of the order of the unit; the smallest
+    non-zero score of a dyadic ensemble of <= 51 members is > 1e-5 units)"""
+    x = float(x)
+    if isnan(q):
+        return x != x
+    if x != x or x in (INF, -INF):
+        return False
+    return abs(Fraction(x) - q) <= rtol * max(abs(q), unit)
+
+
+def mag_same(a, b, unit, rtol=1e-12):
+    """two implementation results that are equal in exact arithmetic and, power-of-two scaling being exact, in binary64 too"""
+    a = np.asarray(a, dtype=float)
+    b = np.asarray(b, dtype=float)
+    with np.errstate(invalid="ignore"):
+        return (np.isnan(a) & np.isnan(b)) | (a == b) | (np.abs(a - b) <= rtol * np.maximum(unit, np.abs(b)))
+
+
+def exact_floats(vals):
+    return all(isnan(v) or (abs(v) < 2 ** 1000 and Fraction(float(v)) == v) for v in vals)
+
+
+def magnitude_level(ctx, cases, tag, ks=None, offset=None, fixed=None):
+    """crps_for_ensemble (four components, both methods), lower tail / interval / upper tail and the threshold integral of
+    brier_score_for_ensemble on data of magnitude 2^k: each against the exact rational oracle of the scaled values with a
+    tolerance relative to 2^k, parts add up, zero iff every member equals the observation, and the scaling relation
+    score(2^k x [+ c], 2^k y [+ c]) = 2^k score(x, y) (the Brier cells, being pure numbers, do not change at all)"""
+    p = P()
+    rng = ctx.rng
+    cases = pad(cases)
+    n = len(cases)
+    if ks is None:
+        ks = [-60, 40] + rng.sample(range(-59, 40), 2)
+    c0 = Fraction(0) if offset is None else offset
+    fc0, ob0 = batch_arrays(cases)
+    # thresholds of the tail / interval calls (in units), scalar or one pair per case
+    kind = fixed[2] if fixed is not None else rng.choice(["scalar", "array"])
+    if fixed is not None:
+        los, his = [fixed[0]] * n, [fixed[1]] * n
+    elif kind == "scalar":
+        lo, hi = sorted(rng.sample(GRID, 2))
+        los, his = [lo] * n, [hi] * n
+    else:
+        los, his = [], []
+        for xs, y in cases:
+            pool = [v for v in xs + [y] if not isnan(v)] or GRID
+            a = rng.choice(pool) if rng.random() < 0.6 else rng.choice(GRID)
+            los.append(a)
+            his.append(rng.choice([g for g in GRID + [Fraction(7)] if g > a]))
+    pts = sorted({v for xs, y in cases for v in xs + [y] if not isnan(v)})
+    mids = [(a + b) / 2 for a, b in zip(pts, pts[1:])]
+    wid = [b - a for a, b in zip(pts, pts[1:])]
+
+    def thr_arg(vals):
+        return float(vals[0]) if kind == "scalar" else xr.DataArray([float(v) for v in vals], dims=["case"])
+
+    def parts(f, o, lo_v, hi_v, meth):
+        a, b = thr_arg(lo_v), thr_arg(hi_v)
+        return [core.call_impl(p.tail_tw_crps_for_ensemble, f, o, "m", a, tail="lower", method=meth, preserve_dims="all"),
+                core.call_impl(p.interval_tw_crps_for_ensemble, f, o, "m", a, b, method=meth, preserve_dims="all"),
+                core.call_impl(p.tail_tw_crps_for_ensemble, f, o, "m", b, tail="upper", method=meth, preserve_dims="all")]
+
+    def comps_of(f, o, meth):
+        r = core.call_impl(p.crps_for_ensemble, f, o, "m", method=meth, preserve_dims="all", include_components=True)
+        return r if r[0] != "ok" else ("ok", {c: r[1].sel(component=c).values for c in COMPONENTS})
+
+    def brier_of(f, o, ts, fair):
+        r = core.call_impl(p.brier_score_for_ensemble, f, o, "m", ts, fair_correction=fair, preserve_dims="all")
+        return r
+
+    base = {meth: comps_of(fc0, ob0, meth) for meth in ("ecdf", "fair")}
+    base_parts = {meth: parts(fc0, ob0, los, his, meth) for meth in ("ecdf", "fair")}
+    base_bs = {fair: (brier_of(fc0, ob0, [float(t) for t in mids], fair) if mids else None) for fair in (False, True)}
+    for k in ks:
+        s = Fraction(2) ** k
+        fs = float(s)
+
+        def T(v):
+            return v if isnan(v) else v * s + c0
+
+        sc = [([T(x) for x in xs], T(y)) for xs, y in cases]
+        slo, shi, smid = [T(v) for v in los], [T(v) for v in his], [T(v) for v in mids]
+        if not exact_floats([v for xs, y in sc for v in xs + [y]] + slo + shi + smid):
+            ctx.count("magnitude:not-exact-in-binary64(skipped)")
+            continue
+        fc, ob = batch_arrays(sc)
+        d0 = {"scale": "2^%d" % k, "offset": c0, "note": "members / obs / thresholds are given in units: the call receives value * scale + offset"}
+        for meth in ("ecdf", "fair"):
+            r = comps_of(fc, ob, meth)
+            pr = parts(fc, ob, slo, shi, meth)
+            shapes = [tuple(x[1].dims) for x in pr if x[0] == "ok"]
+            if any(sh != ("case",) for sh in shapes):
+                ctx.violation("tail / interval twCRPS (preserve_dims='all', include_components omitted) of fcst[case, m], obs[case] do not have the dimension (case)",
+                              dict(d0, fn="tail/interval/tail[magnitude]", members=cases[0][0], obs=cases[0][1], method=meth, lower_threshold=los[0],
+                                   upper_threshold=his[0], thresholds=kind), [["case"]] * 3, [list(map(str, sh)) for sh in shapes])
+                continue
+            if r[0] != "ok" or any(x[0] != "ok" for x in pr):
+                ctx.violation("crps_for_ensemble / tail / interval fail for data of this magnitude", dict(d0, fn="crps_for_ensemble[magnitude]", members=cases[0][0],
+                                                                                                          obs=cases[0][1], method=meth), "values",
+                              [x[1] if x[0] != "ok" else "ok" for x in [r] + pr])
+                continue
+            got = r[1]
+            pv = [x[1].values for x in pr]
+            for i, (xs, y) in enumerate(sc):
+                uxs, uy = cases[i]
+                desc = dict(d0, fn="crps_for_ensemble[magnitude]", members=uxs, obs=uy, method=meth, members_given=[fl(x) for x in xs], obs_given=fl(y))
+                valid = [x for x in xs if not isnan(x)]
+                live = bool(valid) and not isnan(y)
+                ctx.case((tag, k, str(c0), meth, tuple(map(str, uxs)), str(uy)), nontrivial=live)
+                tot = kernel_form(valid, y, meth)
+                if live:
+                    du = sum((max(y - x, 0) for x in valid), Fraction(0)) / len(valid)
+                    do = sum((max(x - y, 0) for x in valid), Fraction(0)) / len(valid)
+                else:
+                    du = do = NAN
+                want = [tot, du, do, NAN if isnan(tot) or isnan(du) else du + do - tot]
+                g4 = [float(got[c][i]) for c in COMPONENTS]
+                bad = [c for c, g, w in zip(COMPONENTS, g4, want) if not mag_ok(g, w, s)]
+                if bad:
+                    ctx.violation("crps_for_ensemble of data of magnitude %s differs from the exact CRPS of the values by more than 1e-9 relative to the unit "
+                                  "of the data (%s): the score has the unit of the data, no absolute quantity enters it" % (d0["scale"], ", ".join(bad)),
+                                  desc, [w if isnan(w) else "%s (%r)" % (w, float(w)) for w in want], g4)
+                    continue
+                if meth == "ecdf" and live:
+                    integ = ecdf_integral(xs, y)
+                    if not mag_ok(g4[0], integ, s):
+                        ctx.violation("crps_for_ensemble(method=ecdf) of small / large-magnitude data is not the integral of (F_ens - H_obs)^2", desc, str(integ), g4[0])
+                    allsame = all(x == y for x in valid)
+                    if (abs(g4[0]) <= 1e-9 * fs) != allsame:
+                        ctx.violation("ecdf CRPS is zero iff every member equals the observation (data of magnitude %s)" % d0["scale"], desc,
+                                      "zero" if allsame else "positive", g4[0])
+                if not any(np.isnan(g) for g in g4) and abs(g4[1] + g4[2] - g4[3] - g4[0]) > 1e-9 * max(fs, abs(g4[0])):
+                    ctx.violation("total != underforecast + overforecast - spread (data of magnitude %s)" % d0["scale"], desc, g4[0], g4[1] + g4[2] - g4[3])
+                # scaling relation: the same call on the unscaled data, times 2^k
+                if base[meth][0] == "ok":
+                    b4 = [fs * float(base[meth][1][c][i]) for c in COMPONENTS]
+                    if not mag_same(g4, b4, fs).all():
+                        ctx.violation("CRPS(a x + c, a y + c) != |a| CRPS(x, y) for a = %s (a power of two: exact in binary64)" % d0["scale"], desc, b4, g4)
+                # lower tail / interval / upper tail: exact oracle of the clipped values, parts add up, scaling
+                dt = dict(desc, fn="tail/interval/tail[magnitude]", lower_threshold=los[i], upper_threshold=his[i], thresholds=kind)
+                wantp = [clip_exact(xs, y, None, slo[i], meth), clip_exact(xs, y, slo[i], shi[i], meth), clip_exact(xs, y, shi[i], None, meth)]
+                gp = [float(v[i]) for v in pv]
+                if not all(mag_ok(g, w, s) for g, w in zip(gp, wantp)):
+                    ctx.violation("lower tail / interval / upper tail twCRPS of data of magnitude %s differ from the exact CRPS of the clipped values "
+                                  "(relative to the unit of the data)" % d0["scale"], dt, [str(w) for w in wantp], gp)
+                elif not any(np.isnan(g) for g in gp + [g4[0]]) and abs(sum(gp) - g4[0]) > 1e-9 * max(fs, abs(g4[0])):
+                    ctx.violation("lower tail + interval + upper tail != unweighted CRPS (data of magnitude %s)" % d0["scale"], dt, g4[0], sum(gp))
+                elif all(x[0] == "ok" for x in base_parts[meth]):
+                    bp = [fs * float(x[1].values[i]) for x in base_parts[meth]]
+                    if not mag_same(gp, bp, fs).all():
+                        ctx.violation("tail / interval twCRPS(a x + c, a y + c; a t + c) != |a| twCRPS(x, y; t) for a = %s" % d0["scale"], dt, bp, gp)
+        # threshold integral of the ensemble Brier score (cells are pure numbers: unchanged by the scaling; widths scale)
+        if mids:
+            tf = [float(t) for t in smid]
+            for fair in (False, True):
+                rb = brier_of(fc, ob, tf, fair)
+                d1 = dict(d0, fn="brier_score_for_ensemble integral[magnitude]", fair=fair, breakpoints=pts)
+                bs = ct_values(ctx, rb[1], dict(d1, members=cases[0][0], obs=cases[0][1])) if rb[0] == "ok" else None
+                if bs is None:
+                    if rb[0] != "ok":
+                        ctx.violation("brier_score_for_ensemble fails for data of this magnitude", dict(d1, members=cases[0][0], obs=cases[0][1]), "values", rb[1])
+                    continue
+                b0 = ct_values(ctx, base_bs[fair][1], dict(d1, members=cases[0][0], obs=cases[0][1], scale="2^0")) if base_bs[fair][0] == "ok" else None
+                for i, (xs, y) in enumerate(sc):
+                    uxs, uy = cases[i]
+                    desc = dict(d1, members=uxs, obs=uy, members_given=[fl(x) for x in xs], obs_given=fl(y))
+                    nvalid = sum(1 for x in xs if not isnan(x))
+                    cell_bad = False
+                    for j, t in enumerate(smid):
+                        wantc = brier_exact(xs, y, t, fair)
+                        if not core.close(bs[i, j], wantc) or (b0 is not None and not same(bs[i, j], b0[i, j], 1e-12)):
+                            ctx.violation("ensemble Brier score of data of magnitude %s at a threshold between the values differs from (i/m - 1{obs >= t})^2 "
+                                          "[- fair correction] / from the score of the unscaled data" % d0["scale"], dict(desc, threshold=mids[j]), str(wantc), float(bs[i, j]))
+                            cell_bad = True
+                            break
+                    if cell_bad or (fair and nvalid == 1):
+                        continue
+                    integ = sum(float(w * s) * bs[i, j] for j, w in enumerate(wid))
+                    ref = kernel_form([x for x in xs if not isnan(x)], y, "fair" if fair else "ecdf")
+                    if not mag_ok(integ, ref, s, rtol=Fraction(1, 10 ** 8)):
+                        ctx.violation("threshold integral of the ensemble Brier score != exact CRPS (data of magnitude %s)" % d0["scale"], desc, str(ref), float(integ))
+        ctx.count("magnitude:2^%d" % k if k in (-60, 40) else "magnitude:2^k")
+        if c0 != 0:
+            ctx.count("magnitude:offset")
+    ctx.count(tag, n)
+
+
+def magnitude_stream(ctx):
+    rng = ctx.rng
+    for r in range(ctx.n(4, 120)):
+        if not ctx.time_left():
+            break
+        k = ctx.n(24, 40)
+        chunk = [rand_case(rng) for _ in range(k)] if r % 4 != 1 else [rand_sized_case(rng, rng.choice([5, 7, 9, 51])) for _ in range(8)]      # short failing inputs first
+        magnitude_level(ctx, chunk, "magnitude")
+        # a nearly perfect forecast of ordinary-magnitude data: values c + j * 2^k / 2 with c of order 1 (exact in binary64 for k >= -45;
+        # the differences member - member and member - obs the code takes are exact too)
+        magnitude_level(ctx, chunk[:12], "magnitude-offset", ks=rng.sample(range(-45, -29), 2), offset=rng.choice([g for g in GRID if g != 0]))
+
+
+# ---------------------------------------------------------------------------------------------------
+# optional arguments: every optional argument of the five public functions OMITTED and EXPLICIT (at its documented default and at
+# other values); the omitted call = the call with the documented default written out = the exact oracle for that default
+# ---------------------------------------------------------------------------------------------------
+def doc_defaults():
+    import operator
+    common = dict(method="ecdf", reduce_dims=None, preserve_dims=None, weights=None, include_components=False)
+    return {"crps_for_ensemble": dict(common),
+            "tw_crps_for_ensemble": dict(common, chaining_func_kwargs=None),
+            "tail_tw_crps_for_ensemble": dict(common, tail="upper"),
+            "interval_tw_crps_for_ensemble": dict(common),
+            "brier_score_for_ensemble": dict(reduce_dims=None, preserve_dims=None, weights=None, fair_correction=True, event_threshold_operator=operator.ge,
+                                             threshold_dim="threshold")}
+
+
+DEFAULT_WEIGHTS = [Fraction(1, 2), Fraction(3, 2), NAN, Fraction(2), Fraction(0), Fraction(3)]      # a case without a weight (NaN) is not scored; weight 0 is
+
+
+def case_components(xs, y, meth, lo=None, hi=None):
+    """exact [total, underforecast, overforecast, spread] of one case (values clipped to [lo, hi])"""
+    def g(v):
+        v = v if lo is None else max(v, lo)
+        return v if hi is None else min(v, hi)
+    valid = [g(x) for x in xs if not isnan(x)]
+    if not valid or isnan(y):
+        return [NAN] * 4
+    yy = g(y)
+    tot = kernel_form(valid, yy, meth)
+    du = sum((max(yy - x, 0) for x in valid), Fraction(0)) / len(valid)
+    do = sum((max(x - yy, 0) for x in valid), Fraction(0)) / len(valid)
+    return [tot, du, do, NAN if isnan(tot) else du + do - tot]
+
+
+def wmean(vals, ws):
+    """NaN-skipping mean of value x weight (the library's weighting rule)"""
+    v = [a if ws is None else (NAN if isnan(a) or isnan(w) else a * w) for a, w in zip(vals, ws or vals)]
+    v = [a for a in v if not isnan(a)]
+    return sum(v, Fraction(0)) / len(v) if v else NAN
+
+
+def defaults_level(ctx, cases, tag):
+    import operator
+    p = P()
+    cases = pad(cases)
+    n = len(cases)
+    fc, ob = batch_arrays(cases)
+    pts = sorted({v for xs, y in cases for v in xs + [y] if not isnan(v)})
+    if len(pts) < 3:
+        return
+    # thresholds derived from the batch (a replay needs the cases only): t0 / t1 on values of the data, Brier thresholds on and between them
+    t0, t1 = pts[len(pts) // 2], pts[1]
+    lo, hi = pts[0] + Fraction(1, 4), pts[-1] - Fraction(1, 4)
+    bts = sorted(set(pts[:4] + [(a + b) / 2 for a, b in zip(pts[:3], pts[1:4])]))
+    ws = [DEFAULT_WEIGHTS[i % len(DEFAULT_WEIGHTS)] for i in range(n)]
+    w = xr.DataArray([fl(v) for v in ws], dims=["case"])
+    DOC = doc_defaults()
+    alts = {"method": ["fair"], "include_components": [True], "weights": [w], "reduce_dims": ["case", ["case"], "all"], "preserve_dims": ["all", ["case"], "case"],
+            "tail": ["lower"], "chaining_func_kwargs": [{}, {"t": float(t1)}], "fair_correction": [False],
+            "event_threshold_operator": [operator.gt, operator.le, operator.lt], "threshold_dim": ["thr"]}
+    positional = {"crps_for_ensemble": (), "tw_crps_for_ensemble": (chain_fn("upper", float(t0)),), "tail_tw_crps_for_ensemble": (float(t0),),
+                  "interval_tw_crps_for_ensemble": (float(lo), float(hi)), "brier_score_for_ensemble": ([float(t) for t in bts],)}
+
+    shown = {"crps_for_ensemble": [], "tw_crps_for_ensemble": ["def v(x, t=%s): return np.maximum(x, t)" % t0], "tail_tw_crps_for_ensemble": [t0],
+             "interval_tw_crps_for_ensemble": [lo, hi], "brier_score_for_ensemble": [bts]}
+
+    def is_doc(kw, doc):
+        return all(v is doc[a] or (not isinstance(v, (xr.DataArray, dict)) and v == doc[a]) for a, v in kw.items())
+
+    def show(kw):
+        out = {}
+        for a, v in kw.items():
+            out[a] = [str(x) for x in ws] if isinstance(v, xr.DataArray) else v.__name__ if callable(v) else v
+        return out
+
+    def expected(fn, eff):
+        """-> (set of dims, values) of the exact result for the effective (given or documented default) arguments"""
+        per_case = eff["preserve_dims"] is not None
+        wl = None if eff["weights"] is None else ws
+        if fn == "brier_score_for_ensemble":
+            opn = eff["event_threshold_operator"].__name__
+            cells = [[brier_exact_op(xs, y, t, eff["fair_correction"], opn) for t in bts] for xs, y in cases]
+            if per_case:
+                val = [[c if wl is None or isnan(c) else (NAN if isnan(wl[i]) else c * wl[i]) for c in row] for i, row in enumerate(cells)]
+                return ["case", eff["threshold_dim"]], val
+            return [eff["threshold_dim"]], [wmean([row[j] for row in cells], wl) for j in range(len(bts))]
+        meth = eff["method"]
+        if fn == "crps_for_ensemble":
+            a, b = None, None
+        elif fn == "tw_crps_for_ensemble":
+            a, b = Fraction((eff["chaining_func_kwargs"] or {}).get("t", t0)), None
+        elif fn == "tail_tw_crps_for_ensemble":
+            a, b = (t0, None) if eff["tail"] == "upper" else (None, t0)
+        else:
+            a, b = lo, hi
+        comp = [case_components(xs, y, meth, a, b) for xs, y in cases]
+        names = range(4) if eff["include_components"] else [0]
+        if per_case:
+            val = [[c[k] if wl is None or isnan(c[k]) else (NAN if isnan(wl[i]) else c[k] * wl[i]) for i, c in enumerate(comp)] for k in names]
+            dims = ["case"]
+        else:
+            val = [wmean([c[k] for c in comp], wl) for k in names]
+            dims = []
+        if eff["include_components"]:
+            return ["component"] + dims, val
+        return dims, val[0]
+
+    def flat(v):
+        return [x for r in v for x in flat(r)] if isinstance(v, list) else [v]
+
+    for fn, doc in DOC.items():
+        f = getattr(p, fn)
+        variants = [({}, "all omitted"), (dict(doc), "all explicit at the documented defaults")]
+        for a in doc:
+            variants.append(({b: v for b, v in doc.items() if b != a}, a + " omitted, the others explicit"))
+            variants.append(({a: doc[a]}, a + " explicit at its documented default, the others omitted"))
+            for v in alts[a]:
+                variants.append(({a: v}, a + " explicit, the others omitted"))
+                other = "preserve_dims" if a == "reduce_dims" else "reduce_dims" if a == "preserve_dims" else None
+                variants.append((dict({b: x for b, x in doc.items() if b != other}, **{a: v}), a + " explicit, the others explicit at the documented defaults"))
+        ref = None
+        for kw, what in variants:
+            eff = dict(doc, **kw)
+            r = core.call_impl(f, fc, ob, "m", *positional[fn], **kw)
+            desc = {"fn": fn + "[defaults]", "cases": [{"members": xs, "obs": y} for xs, y in cases], "positional": shown[fn], "arguments_given": show(kw), "which": what}
+            ctx.case((tag, fn, what, repr(show(kw)), tuple((tuple(map(str, xs)), str(y)) for xs, y in cases)))
+            ctx.count("defaults:" + fn)
+            if r[0] != "ok":
+                ctx.violation(fn + " fails with valid optional arguments (" + what + ")", desc, "a value", r[1])
+                continue
+            dims, val = expected(fn, eff)
+            res = r[1]
+            if not isinstance(res, xr.DataArray) or set(res.dims) != set(dims):
+                ctx.violation(fn + ": dimensions of the result differ from those the (documented default) arguments ask for (" + what + ")", desc, dims,
+                              [str(d) for d in getattr(res, "dims", [type(res).__name__])])
+                continue
+            if "component" in dims and list(res["component"].values) != COMPONENTS:
+                ctx.violation(fn + ": component labels", desc, COMPONENTS, [str(v) for v in res["component"].values])
+                continue
+            if fn.startswith("brier") and [float(v) for v in res[eff["threshold_dim"]].values] != [float(t) for t in bts]:
+                ctx.violation(fn + ": the threshold coordinate of the result is not the thresholds given", desc, [float(t) for t in bts],
+                              [float(v) for v in res[eff["threshold_dim"]].values])
+                continue
+            gv = np.asarray(res.transpose(*dims).values, dtype=float)
+            wv = flat(val)
+            if not core.close_list(gv.ravel().tolist(), wv):
+                ctx.violation(fn + " differs from the exact value for the arguments given / the documented defaults of the arguments omitted (" + what + ")",
+                              desc, [str(v) for v in wv], gv.ravel().tolist())
+                continue
+            if is_doc(kw, doc):
+                if ref is None:
+                    ref = (what, dims, gv)
+                elif ref[1] != dims or not np.array_equal(ref[2], gv, equal_nan=True):
+                    ctx.violation(fn + ": a call with an argument omitted differs from the call with its documented default written out (" + what + " vs " + ref[0] + ")",
+                                  desc, ref[2].ravel().tolist(), gv.ravel().tolist())
+        # a scalar threshold is the one-element list
+        if fn.startswith("brier"):
+            ti = [t for t in pts if t.denominator == 1]
+            ts1 = int(ti[len(ti) // 2]) if ti and n % 2 else float(t0)      # a Python int or a float
+            r1 = core.call_impl(f, fc, ob, "m", ts1)
+            rl = core.call_impl(f, fc, ob, "m", [ts1])
+            ctx.case((tag, fn, "scalar threshold", str(ts1), tuple((tuple(map(str, xs)), str(y)) for xs, y in cases)))
+            ctx.count("defaults:scalar-threshold=" + type(ts1).__name__)
+            if r1[0] != "ok" or rl[0] != "ok" or r1[1].dims != rl[1].dims or not np.array_equal(r1[1].values, rl[1].values, equal_nan=True):
+                ctx.violation("brier_score_for_ensemble: a scalar event threshold is not scored as the one-element list",
+                              {"fn": fn + "[defaults]", "cases": [{"members": xs, "obs": y} for xs, y in cases], "positional": [repr(ts1)], "arguments_given": {}},
+                              str(rl[1].values.tolist()) if rl[0] == "ok" else rl[1], str(r1[1].values.tolist()) if r1[0] == "ok" else r1[1])
+    ctx.count(tag, n)
 
 
 def exhaustive_cases(maxm=3):
@@ -1761,6 +2162,13 @@ def run_without_model(ctx):
 
 def run(ctx):
     rng = ctx.rng
+    if has_model(ctx):
+        # a model that was not built must show before any violation is on record (core then falls back to run_without_model: the full model-free run)
+        core.dec_nums(ctx.model("c06_case", enc_list([enc_nums([Fraction(0)]), enc_num(Fraction(0)), enc_str("ecdf")])))
+    # optional arguments omitted / explicit: first (cheap; its violations are on record before a changed default can trip another stream
+    # over an unexpected result shape)
+    for _ in range(ctx.n(3, 60)):
+        defaults_level(ctx, [rand_case(rng, maxm=5) for _ in range(rng.randint(4, 7))], "defaults")
     ex = exhaustive_cases(4 if ctx.tier == "thorough" else 3)
     ctx.exhaustive = True
     for i in range(0, len(ex), 400):
@@ -1779,6 +2187,7 @@ def run(ctx):
         for j in range(0, len(chunk), 60):
             brier_weights_level(ctx, chunk[j:j + 12], "brier-weights")
         kwargs_level(ctx, chunk[:100], "chain-kwargs")
+    magnitude_stream(ctx)
     size_level(ctx)
     storage_level(ctx)
     inf_level(ctx)
